@@ -100,6 +100,8 @@ impl PoolInner {
         debug_assert!(!f[slot]);
         f[slot] = true;
         self.busy.fetch_sub(1, Ordering::SeqCst);
+        drop(f);
+        detsim::poke();
     }
 }
 
@@ -160,6 +162,16 @@ unsafe impl<T: ?Sized> Send for SendPtr<T> {}
 /// return before the job has finished (it blocks on the job's latch).
 unsafe fn erase<'a>(f: Box<dyn FnOnce() + Send + 'a>) -> Box<dyn FnOnce() + Send + 'static> {
     unsafe { std::mem::transmute(f) }
+}
+
+/// `body`, then `signal`. The job's captures (borrows of the caller's frame, which the caller hands
+/// out again as soon as it is told that the job is done) live inside `body` only: by the time the
+/// signal is given, the call that held them has returned.
+fn then(body: Box<dyn FnOnce() + Send + 'static>, signal: impl FnOnce() + Send + 'static) -> Box<dyn FnOnce() + Send + 'static> {
+    Box::new(move || {
+        body();
+        signal();
+    })
 }
 
 /// Run `body` as a job of `pool`: take a slot, run, give it back.
@@ -356,9 +368,11 @@ where
                 let r = catch_unwind(AssertUnwindSafe(op));
                 unsafe { *(*result.0).lock().unwrap() = Some(r) };
             });
-            done.store(1, Ordering::SeqCst);
         });
-        detsim::spawn("install-job", unsafe { erase(body) });
+        detsim::spawn("install-job", then(unsafe { erase(body) }, move || {
+            done.store(1, Ordering::SeqCst);
+            detsim::poke();
+        }));
     }
     let d = done.clone();
     wait_as_worker("install", move || d.load(Ordering::SeqCst) == 1);
@@ -411,9 +425,11 @@ where
                 let r = catch_unwind(AssertUnwindSafe(b));
                 unsafe { *(*rbp.0).lock().unwrap() = Some(r) };
             });
-            done.store(1, Ordering::SeqCst);
         });
-        detsim::spawn("join-b", unsafe { erase(body) });
+        detsim::spawn("join-b", then(unsafe { erase(body) }, move || {
+            done.store(1, Ordering::SeqCst);
+            detsim::poke();
+        }));
     }
     let ra = catch_unwind(AssertUnwindSafe(a));
     let d = done.clone();
@@ -462,9 +478,11 @@ impl<'scope> Scope<'scope> {
                     sc.panics.lock().unwrap().push(p);
                 }
             });
-            left.fetch_sub(1, Ordering::SeqCst);
         });
-        detsim::spawn("scope-job", unsafe { erase(job) });
+        detsim::spawn("scope-job", then(unsafe { erase(job) }, move || {
+            left.fetch_sub(1, Ordering::SeqCst);
+            detsim::poke();
+        }));
     }
 }
 
@@ -575,9 +593,11 @@ fn for_each_jobs<T: Send, F: Fn(T) + Sync + Send>(items: Vec<T>, f: F) {
                         pref.lock().unwrap().push(p);
                     }
                 });
-                left.fetch_sub(1, Ordering::SeqCst);
             });
-            detsim::spawn("for-each-item", unsafe { erase(body) });
+            detsim::spawn("for-each-item", then(unsafe { erase(body) }, move || {
+                left.fetch_sub(1, Ordering::SeqCst);
+                detsim::poke();
+            }));
         }
     }
     let l = left.clone();
